@@ -61,6 +61,10 @@ func c02Profiles(tier Tier) []*explore.Profile {
 			acts = append(acts, impostorMenu(w, o)...)
 			acts = append(acts, freezeMenu(w, o, true)...)
 			acts = append(acts, deliveries(w)...)
+			// tokens sent to the system account's own address by a user of its shard
+			if held(w, uni.C1, tF) > 0 {
+				acts = append(acts, uni.ESDTTransfer(uni.C1, uni.Sys, uni.F, 1))
+			}
 			return acts
 		},
 	}
@@ -111,6 +115,10 @@ func c04Profiles(tier Tier) []*explore.Profile {
 			acts = append(acts, transferMenuLight(w, o)...)
 			acts = append(acts, supplyMenuLight(w, o)...)
 			acts = append(acts, deliveries(w)...)
+			// tokens sent to the system account's own address by a user of its shard
+			if held(w, uni.C1, tF) > 0 {
+				acts = append(acts, uni.ESDTTransfer(uni.C1, uni.Sys, uni.F, 1))
+			}
 			return acts
 		},
 	}
